@@ -33,6 +33,7 @@ ASSUMPTIONS = ["keys with reflexive equality only (stated in the property)", "CP
 @st.composite
 def histories(draw, tier):
     uids = Uids()
+    strict_mixed = False
     nkeys = draw(st.integers(2, 4))
     items = [uids.fix(("K", k)) for k in draw(st.lists(st.integers(0, nkeys - 1), min_size=draw(st.sampled_from([0, 3, 5])),
                                                              max_size=10 if tier == "quick" else 14))]
@@ -47,6 +48,7 @@ def histories(draw, tier):
             # ... among ordinary keys: comparing two DIFFERENT keys can fail then, inside a group poll as well as in
             # an advance of the groupby (whoever asks again gets the same answer from both implementations)
             key = [k if draw(st.integers(0, 1)) == 0 else ["i", k[1]] for k in key]
+            strict_mixed = True
     elif key is not None and key[0][0] not in ("T", "SK") and draw(st.integers(0, 7)) == 0:
         key = [["E", 990 + i] if draw(st.integers(0, 2)) == 0 else k for i, k in enumerate(key)]
     mixed = [["i", 1], ["f", 1.0], ["b", True], ["i", 0], ["f", 0.0], ["b", False], ["i", 2], ["f", 2.0], ["F", 2, 1],
@@ -68,6 +70,9 @@ def histories(draw, tier):
                                   st.tuples(st.just("reiter"), st.integers(0, 6)).map(list),
                                   st.just(["close-current"])),
                         min_size=draw(st.sampled_from([0, 4, 6])), max_size=15 if tier == "quick" else 25))
+    if strict_mixed and draw(st.booleans()):
+        # ... and make sure a group is polled on, past the point where the comparison of its key with the next one fails
+        ops = [["gb"]] + [["group", 0]] * 5 + ops
     return {"items": items, "key": key, "keyfl": draw(st.sampled_from(["def", "async", "obj", "eagercoro", "defcoro"])),
             "fl": draw(st.sampled_from(["list", "iter", "agen", "aclass"])), "ops": ops}
 
